@@ -248,6 +248,16 @@ static Error prog_x86(E& a, CodeHolder& code, EH& eh, Arena& pool_arena, bool bi
   CK(a.embed_label_delta(Ldata, Ltab, 8));
   CK(a.embed_label_delta(Lend, Ltab, 4));
   {
+    // the pool goes to its own section that is filled up to 8 bytes below its (first) capacity: the alignment padding still
+    // fits, the pool data needs the buffer to grow - after the label has been bound
+    Section* cps = nullptr;
+    CK(code.new_section(Out(cps), ".cpool", SIZE_MAX, SectionFlags::kReadOnly, 32, 2));
+    CK(a.section(cps));
+    {
+      std::vector<uint8_t> fill(16280);
+      for (size_t i = 0; i < fill.size(); i++) fill[i] = uint8_t(i * 13 + 5);
+      CK(a.embed(fill.data(), fill.size()));
+    }
     ConstPool pool(pool_arena);
     size_t off;
     // pairwise distinct constants whose parts do not repeat: the layout does not depend on the (optional) shared nodes
@@ -256,12 +266,12 @@ static Error prog_x86(E& a, CodeHolder& code, EH& eh, Arena& pool_arena, bool bi
     uint32_t c4 = 0x51525354u;
     uint16_t c2 = 0x6162;
     // descending sizes: no alignment gaps, so the layout does not depend on whether a Gap record could be allocated
-    CK1(pool.add(&c8[0], 32, Out(off)));
-    CK1(pool.add(&c8[4], 16, Out(off)));
-    CK1(pool.add(&c8[6], 8, Out(off)));
-    CK1(pool.add(&c4, 4, Out(off)));
-    CK1(pool.add(&c2, 2, Out(off)));
-    CK1(a.embed_const_pool(Lpool, pool));   // composite call (align + bind + data): not repeated
+    CK(pool.add(&c8[0], 32, Out(off)));
+    CK(pool.add(&c8[4], 16, Out(off)));
+    CK(pool.add(&c8[6], 8, Out(off)));
+    CK(pool.add(&c4, 4, Out(off)));
+    CK(pool.add(&c2, 2, Out(off)));
+    CK(a.embed_const_pool(Lpool, pool));
   }
   return Error::kOk;
 }
@@ -392,6 +402,7 @@ struct Workload {
   // (re)initialise the objects for attempt number `attempt` (0 = first use) - may itself fail
   virtual Error prepare(int attempt) = 0;
   virtual Error body(Out2& o) = 0;
+  virtual bool retries() const { return false; }   // the workload repeats every failed call (also the initialisation)
   EH eh;
 };
 
@@ -425,6 +436,7 @@ struct HolderWL : Workload {
 struct AsmX86 : HolderWL {
   bool big;
   bool retry = false;
+  bool retries() const override { return retry; }
   x86::Assembler a;
   Arena pool_arena{4096};
   explicit AsmX86(bool big) : big(big) { env.init(Arch::kX64); }
@@ -448,6 +460,7 @@ struct AsmA64 : HolderWL {
 struct BuildX86 : HolderWL {
   bool big;
   bool retry = false;
+  bool retries() const override { return retry; }
   x86::Builder b;
   Arena pool_arena{4096};
   explicit BuildX86(bool big) : big(big) { env.init(Arch::kX64); }
@@ -653,6 +666,7 @@ static Attempt attempt(Workload& wl, int n, bool armed) {
   Attempt r;
   Out2 o;
   Error e = wl.prepare(n);
+  for (int t = 0; wl.retries() && e != Error::kOk && t < 8; t++) e = wl.prepare(n);
   if (e == Error::kOk) e = wl.body(o);
   r.err = e;
   r.eh = wl.eh.count;
